@@ -207,3 +207,45 @@ def check_c16(tier, t0):
 
 
 CHECKS["C16"] = check_c16
+
+
+# ------------------------------------------------------------------------------------------------
+# C17  classification
+# ------------------------------------------------------------------------------------------------
+def check_c17(tier, t0):
+    from common import run_tlc, tlc_require_clean, extract_json_lines, workdir
+    wd = workdir("C17-%s" % tier)
+    cfg = "Classify_thorough.cfg" if tier == "thorough" else "Classify_quick.cfg"
+    mc = run_tlc("Classify.tla", cfg, wd, timeout=1500)
+    if mc["violated"]:
+        raise ToolError("design-level invariant %s violated in Classify.tla" % mc["violated"])
+    tlc_require_clean(mc, "Classify")
+    cases = os.path.join(wd, "cases.ndjson")
+    n = extract_json_lines(mc["out_path"], cases)
+    os.remove(mc["out_path"])
+    out = os.path.join(wd, "out.json")
+    run_harness(["classify", "--cases", cases, "--out", out])
+    s = json.load(open(out))
+    log("[C17] %d abstract messages, %d executed, %d skipped, %d minimal mismatches" %
+        (n, s["evaluated"], s["skipped"], len(s["violations"])))
+    if s["evaluated"] == 0:
+        raise ToolError("no classification case could be executed: %s" % s["skip_reasons"])
+    cov = {
+        "states": mc["distinct"], "transitions": mc["generated"],
+        "traces_validated_against_impl": 0,
+        "evaluations": s["evaluated"], "distinct_nontrivial": s["distinct_nontrivial"],
+        "rule": "every (type in 103/202/205/200) x (subset of 9 code words and look-alikes, size <= MaxWords) x (5 message user "
+                "references) x (validation flag 119) x (cover sequence) allowed by Classify!Init; non-trivial = at least one word, "
+                "reference, flag or cover sequence; predicates read from SwiftMessage, method from the parse_mt plugin",
+        "samples": s["samples"] or [{}],
+        "skipped": s["skipped"], "skip_reasons": s["skip_reasons"],
+        "non_minimal_mismatches_subsumed": s["subsumed_non_minimal"],
+        "exhaustive": True, "exhaustive_scope": "the finite space of %s" % cfg,
+    }
+    assumptions = ["documented code words are /REJT/ and /RETN/ (field 72 of MT103/202/205) and REJT/RETN inside the message user reference",
+                   "the method is compared with what the library's own predicates imply (plus tag 119 for MT202/205), so a wrong predicate "
+                   "is reported once, under the predicate"]
+    return report("C17", tier, "model_checking", s["violations"], cov, assumptions, t0)
+
+
+CHECKS["C17"] = check_c17
